@@ -40,6 +40,18 @@ def run(F, R, tier):
     meq, mh = T.top_match(feq, body=H.unlet(H.body_of(feq))), T.top_match(fh, body=H.unlet(H.body_of(fh)))
     if not (R.anchor("eq: match (self, other)", meq) and R.anchor("hash: match self", mh)):
         return
+    def eq_as_call(n):
+        """`a == b` written with the operator reads like `a.eq(b)` (same PartialEq::eq)"""
+        if isinstance(n, list):
+            return [eq_as_call(x) for x in n]
+        if not isinstance(n, dict):
+            return n
+        n = {k_: eq_as_call(v_) for k_, v_ in n.items()}
+        if n.get("k") == "bin" and n.get("op") == "==":
+            return {"k": "mcall", "m": "eq", "recv": n["l"], "args": [n["r"]], "recv_ty": (H.strip(n["l"]).get("ty") or n["l"].get("ty") or ""), "callee": n.get("callee"), "line": n.get("line"), "ty": "bool"}
+        return n
+    meq = dict(meq)
+    meq["arms"] = [dict(a_, body=eq_as_call(a_["body"])) for a_ in meq["arms"]]
     eqa = T.pair_arms(meq)
     ha = T.single_arms(mh)
     # valid keys
@@ -137,6 +149,17 @@ def run(F, R, tier):
                     # through the same canonical function, with the same conversion on the converted side
                     b = H.strip(a["body"])
                     sides = [H.strip(b["recv"]), H.strip(b["args"][0])]
+                    # which side belongs to which operand: by the payload bindings of the pattern alternative for (va, vb)
+                    # (`(Integer(i), Float(f)) | (Float(f), Integer(i)) => (*i as f64) == *f` serves both orders)
+                    alts = a["pat"]["pats"] if a["pat"].get("k") == "or" else [a["pat"]]
+                    for alt in alts:
+                        if alt.get("k") == "tuple" and len(alt["pats"]) == 2 and va in {H.last(v) for v in H.pat_variants(alt["pats"][0])} and \
+                                vb in {H.last(v) for v in H.pat_variants(alt["pats"][1])}:
+                            ids = [{y["id"] for y in H.walk(alt["pats"][i_]) if y.get("k") == "bind"} for i_ in (0, 1)]
+                            uses = [{H.local_id(y) for y in H.walk(sd) if isinstance(y, dict) and H.local_id(y) is not None} for sd in sides]
+                            if ids[0] & uses[1] and ids[1] & uses[0] and not (ids[0] & uses[0]):
+                                sides = [sides[1], sides[0]]
+                            break
                     conv = ["payload as f64" if (x.get("k") == "cast" and x.get("ty") == "f64") else "payload" for x in sides]
                     cok, cd = canon_ok(hka[1])
                     ok = cok and [hka[2], hkb[2]] == conv
@@ -241,7 +264,9 @@ def run(F, R, tier):
         g = F.fn(p)
         if not R.anchor(p, g and g.get("mir")):
             continue
-        B = M.Body(g)
+        # (the query may sit in a private helper of the map: its MIR is spliced in)
+        g2, _ = M.inline_calls(F, g, lambda c: c.startswith("object::hmap::") and len(F.fns[c]["mir"]["blocks"]) <= 120, depth=2)
+        B = M.Body(g2)
         q = M.call_blocks(B, lambda t: (t.get("callee") or "").startswith("std::collections::HashMap") and H.last(t.get("callee") or "") in meths)
         free = M.reachable_avoiding(B, 0, q) if q else set(range(B.n))
         rets = sorted(free & M.return_blocks(B))
@@ -253,9 +278,10 @@ def run(F, R, tier):
         flds = [fl.get("name") for v in hm.get("variants", []) for fl in v.get("fields", [])]
         R.ob("lookup-always-consults-map", "HMap has the HashMap as its only field", flds == ["pairs"], "fields: %s" % flds)
     # lookups take the key itself (no pre-conversion)
-    for nm, meth in (("get", "get"), ("contains", "contains_key"), ("insert", "insert")):
+    for nm, meth in (("get", ("get",)), ("contains", ("contains_key", "get")), ("insert", ("insert",))):
         g = F.fn("object::hmap::HMap::" + nm)
         if R.anchor("HMap::" + nm, g):
-            cs = [c for c in H.walk(H.body_of(g)) if c.get("k") == "mcall" and c["m"] == meth]
-            ok = len(cs) == 1 and H.is_local(H.strip(cs[0]["args"][0]), "key")
+            cs = [c for c in H.walk(H.body_inl(F, g)) if c.get("k") == "mcall" and c["m"] in meth and "HashMap" in (c.get("callee") or c.get("decl") or "")]
+            kid = [p_["id"] for p_ in g["hir"]["params"] if p_.get("k") == "bind" and p_.get("name") != "self"][:1]
+            ok = len(cs) == 1 and H.local_id(H.strip(cs[0]["args"][0])) in kid
             R.ob("map-routing", "HMap::%s passes the key unchanged" % nm, ok, H.render(cs[0])[:80] if cs else "no call", F.loc(g))
